@@ -298,3 +298,81 @@ Lemma json_string_layer lexs (s b : bytes) :
   HexBytes_UnmarshalJSON lexs (quote s) = Ok b /\ HexBytes_UnmarshalJSON lexs (quote (t_0x ++ s)) = Ok b /\
   (length b = 20%nat -> Address_UnmarshalJSON lexs (quote s) = Ok b /\ Address_UnmarshalJSON lexs (quote (t_0x ++ s)) = Ok b).
 Proof. exact (json_string_layer_local lexs s b). Qed.
+
+(* ---------- the canonical form is unique ---------- *)
+Lemma hex_digits_bounds s : forall acc n,
+  digits_val 16 hex_val s acc = Some n ->
+  acc * 16 ^ N.of_nat (length s) <= n /\ n < (acc + 1) * 16 ^ N.of_nat (length s).
+Proof.
+  induction s as [|c s IH]; intros acc n H.
+  - cbn in H. injection H as <-. cbn. lia.
+  - cbn [digits_val] in H. destruct (hex_val c) as [d|] eqn:Ec; [|discriminate].
+    destruct (hex_val_digit c d Ec) as [_ Hd]. destruct (IH _ _ H) as [L U].
+    replace (N.of_nat (length (c :: s))) with (N.succ (N.of_nat (length s))) by (cbn [length]; lia).
+    rewrite N.pow_succ_r'. nia.
+Qed.
+
+Lemma lower_hex_char_inj c c' d :
+  is_lower_hex c = true -> is_lower_hex c' = true -> hex_val c = Some d -> hex_val c' = Some d -> c = c'.
+Proof.
+  unfold is_lower_hex, hex_val. intros L L' H H'. apply b2n_inj.
+  destruct ((48 <=? b2n c) && (b2n c <=? 57)) eqn:E1; destruct ((48 <=? b2n c') && (b2n c' <=? 57)) eqn:E1';
+  destruct ((97 <=? b2n c) && (b2n c <=? 102)) eqn:E2; destruct ((97 <=? b2n c') && (b2n c' <=? 102)) eqn:E2';
+  try (injection H as <-); try (injection H' as H'); try lia;
+  destruct ((65 <=? b2n c) && (b2n c <=? 70)) eqn:E3; destruct ((65 <=? b2n c') && (b2n c' <=? 70)) eqn:E3'; try discriminate; lia.
+Qed.
+
+Lemma same_length_inj s : forall s' acc acc' n,
+  length s = length s' -> forallb is_lower_hex s = true -> forallb is_lower_hex s' = true ->
+  digits_val 16 hex_val s acc = Some n -> digits_val 16 hex_val s' acc' = Some n -> acc = acc' /\ s = s'.
+Proof.
+  induction s as [|c s IH]; intros [|c' s'] acc acc' n Hl L L' H H'; try discriminate.
+  - cbn in H, H'. split; congruence.
+  - cbn [digits_val] in H, H'. cbn [forallb] in L, L'.
+    apply andb_true_iff in L, L'. destruct L as [Lc L], L' as [Lc' L'].
+    destruct (hex_val c) as [d|] eqn:Ec; [|discriminate]. destruct (hex_val c') as [d'|] eqn:Ec'; [|discriminate].
+    destruct (hex_val_digit c d Ec) as [_ Hd]. destruct (hex_val_digit c' d' Ec') as [_ Hd'].
+    injection Hl as Hl. destruct (IH s' _ _ n Hl L L' H H') as [Ha ->].
+    assert (acc = acc' /\ d = d') as [-> ->] by lia.
+    split; [reflexivity|]. f_equal. eapply lower_hex_char_inj; eassumption.
+Qed.
+
+Lemma canonical_length_bounds s n :
+  s <> [] -> no_leading_zero s = true -> digits_val 16 hex_val s 0 = Some n ->
+  n < 16 ^ N.of_nat (length s) /\ ((2 <= length s)%nat -> 16 ^ N.of_nat (length s - 1) <= n).
+Proof.
+  intros Hne Hz H. split.
+  - destruct (hex_digits_bounds s 0 n H) as [_ U]. lia.
+  - intros H2. destruct s as [|c [|c1 s1]]; cbn [length] in H2; try lia.
+    cbn [no_leading_zero] in Hz. cbn [digits_val] in H.
+    destruct (hex_val c) as [d|] eqn:Ec; [|discriminate].
+    assert (Hd : 1 <= d).
+    { unfold hex_val in Ec. apply negb_true_iff in Hz. apply N.eqb_neq in Hz.
+      destruct ((48 <=? b2n c) && (b2n c <=? 57)) eqn:E1; [injection Ec as <-; lia|].
+      destruct ((97 <=? b2n c) && (b2n c <=? 102)) eqn:E2; [injection Ec as <-; lia|].
+      destruct ((65 <=? b2n c) && (b2n c <=? 70)) eqn:E3; [injection Ec as <-; lia|discriminate]. }
+    destruct (hex_digits_bounds (c1 :: s1) (0 * 16 + d) n H) as [Lb _].
+    replace (length (c :: c1 :: s1) - 1)%nat with (length (c1 :: s1)) by (cbn [length]; lia).
+    nia.
+Qed.
+
+Theorem canonical_hex_unique s s' n : canonical_hex s n -> canonical_hex s' n -> s = s'.
+Proof.
+  intros (ds & -> & Hv & Hz & Hl) (ds' & -> & Hv' & Hz' & Hl'). f_equal.
+  unfold hex_value in Hv, Hv'.
+  assert (Hne : ds <> []) by (destruct ds; [discriminate|discriminate]).
+  assert (Hne' : ds' <> []) by (destruct ds'; [discriminate|discriminate]).
+  assert (Hv1 : digits_val 16 hex_val ds 0 = Some n) by (destruct ds; [congruence|exact Hv]).
+  assert (Hv1' : digits_val 16 hex_val ds' 0 = Some n) by (destruct ds'; [congruence|exact Hv']).
+  destruct (canonical_length_bounds ds n Hne Hz Hv1) as [U Lb].
+  destruct (canonical_length_bounds ds' n Hne' Hz' Hv1') as [U' Lb'].
+  assert (Hlen : length ds = length ds').
+  { destruct (Nat.lt_trichotomy (length ds) (length ds')) as [Lt|[E|Gt]]; [exfalso|exact E|exfalso].
+    - assert (H2 : (2 <= length ds')%nat) by (destruct ds; [congruence|cbn [length] in *; lia]).
+      specialize (Lb' H2).
+      assert (16 ^ N.of_nat (length ds) <= 16 ^ N.of_nat (length ds' - 1)) by (apply N.pow_le_mono_r; lia). lia.
+    - assert (H2 : (2 <= length ds)%nat) by (destruct ds'; [congruence|cbn [length] in *; lia]).
+      specialize (Lb H2).
+      assert (16 ^ N.of_nat (length ds') <= 16 ^ N.of_nat (length ds - 1)) by (apply N.pow_le_mono_r; lia). lia. }
+  apply (same_length_inj ds ds' 0 0 n Hlen Hl Hl' Hv1 Hv1').
+Qed.
